@@ -132,6 +132,29 @@ def run(ctx):
         elif reads != 1:
             ctx.fail("C12-R2", CREATE, "gv_weight reads", "self.gv_weight is read %d times" % reads, cr.loc())
 
+    # the GV weight that reaches stream k's MlpgAdjust is the condition's gv_weight[k]
+    from ..expr import walk as _walk
+    gen = p.body("engine::Engine::generator")
+    mn_ = p.body("mlpg_adjust::MlpgAdjust::<'a>::new")
+    if gen is not None and mn_ is not None:
+        ebg = ExprBuilder(gen)
+        news = cm.local_calls(gen, p, exact="mlpg_adjust::MlpgAdjust::<'a>::new")
+        ctx.anchor("C12-R2", "MlpgAdjust::new call sites in Engine::generator", len(news), 3, gen.loc())
+        for bb, t in news:
+            w_idx = s_idx = None
+            for k, a in enumerate(t["args"]):
+                e = ebg.at(bb).op(a)
+                if mn_.local_name(k + 1) == "gv_weight":
+                    if e[0] == "idx" and e[2][0] == "c" and show(e[1]).endswith("condition.gv_weight"):
+                        w_idx = e[2][1]
+                ms = [x for x in _walk(e) if x[0] == "call" and x[1] == "model::Models::<'a>::model_stream"]
+                if ms and ms[0][2][1][0] == "c":
+                    s_idx = ms[0][2][1][1]
+            if w_idx is not None and w_idx == s_idx:
+                ctx.ok("C12-R2", "stream %d is generated with condition.gv_weight[%d]" % (s_idx, w_idx), cm.loc_of(t["span"]))
+            else:
+                ctx.fail("C12-R2", gen.path, "gv weight of stream %s" % s_idx, "the trajectory of stream %s is generated with gv_weight[%s]: a stream's GV weight must be its own (another stream's weight would rescale it, and its own would do nothing)" % (s_idx, w_idx), cm.loc_of(t["span"]))
+
     # "a stream without GV" is a stream whose USE_GV flag is off: Models::gv hands out GV
     # statistics (Some) only under the stream's use_gv flag - whatever the loader kept in gv_model
     gvb = cm.body_or_fail(ctx, p, "C12-R2", "model::Models::<'a>::gv")
